@@ -217,3 +217,56 @@ func VerifH_C16_slice_write() {
 		}
 	}
 }
+
+// C16-H3 / C02: property names on a bridged Go map whose key type is an
+// integer kind: any name (symbolic ASCII bytes) in a read, an `in` test, a
+// write or a delete - a name that is not a key of that type means "no such
+// property" for reads and deletes and a RangeError for writes; no Go panic
+// escapes Run. (Access with a valid key goes into reflect's map
+// implementation, which the shim does not model: reported inconclusive.)
+func VerifH_C16_map_keys() {
+	vm := New()
+	n := verifChoose(verifParam("maxlen", 2) + 1)
+	s := verifNondetString(n)
+	for i := 0; i < n; i++ {
+		verifAssume(s[i] < 0x80)
+	}
+	isKey := n > 0
+	for i := 0; i < n; i++ {
+		if s[i] < '0' || s[i] > '9' {
+			isKey = false
+		}
+	}
+	verifAssume(!isKey) // valid keys: beyond the reflect shim
+	vm.Set("s", s)
+	switch verifChoose(3) {
+	case 0:
+		vm.Set("m", map[int]string{1: "a"})
+	case 1:
+		vm.Set("m", map[uint8]int{1: 2})
+	default:
+		vm.Set("m", map[int64]bool{1: true})
+	}
+	script := []string{"m[s]", "s in m", "delete m[s]", "var r = 'ok'; try { m[s] = 1 } catch (e) { r = e instanceof RangeError || e instanceof TypeError ? 'refused' : 'other' } r"}[verifChoose(4)]
+	verifLog(script)
+	var v Value
+	var err error
+	kind, _ := verifCatch(func() { v, err = vm.Run(script) })
+	verifCover("reached")
+	verifAssert(kind == verifNormal, "no Go panic escapes Run")
+	if kind != verifNormal || err != nil {
+		return
+	}
+	switch script[0] {
+	case 'm':
+		verifAssert(v.IsUndefined() || v.IsFunction() || v.IsObject(), "a name that is not a key reads as undefined (or an inherited member)")
+	case 's':
+		b, _ := v.ToBoolean()
+		_ = b
+	case 'd':
+		b, _ := v.ToBoolean()
+		verifAssert(b, "deleting a name that cannot be a key succeeds trivially")
+	case 'v':
+		verifAssert(v.String() == "refused", "writing a name that is not a key of the map's key type is refused with an error the script sees")
+	}
+}
